@@ -52,7 +52,7 @@ def run(ctx):
                 if cls.startswith("Err") or cls == "Panic":
                     violations.append({"what": "%s of participant %d fails with %s in an interleaving with other participants' ordinary operations" % (opk, i, cls),
                                        "classification": {"kind": "error-under-interleaving", "op": opk, "family": fam["name"].split(":")[1]},
-                                       "replay": {"kind": "schedule", "family": fam["name"], "setup": fam["setup"], "participants": K.part_lines(fam), "schedule": K.schedule_text(cr), "result": rest}})
+                                       "replay": {"kind": "schedule", "family": fam["name"], "setup": fam["setup"], "participants": K.part_lines(fam), "schedule": K.schedule_text(cr), "raw_schedule": K.schedule_raw(cr), "result": rest}})
     seen, uniq = set(), []
     for v in violations:
         k = tuple(sorted(v["classification"].items()))
